@@ -228,6 +228,7 @@ type info struct {
 	attrs    [5][]string
 	nmats    int
 	matSum   int
+	nilMat   bool // some MeshMaterial has a nil *Material (SplitOnUniqueMaterials dereferences it)
 }
 
 func inspect(m modeling.Mesh) info {
@@ -253,6 +254,9 @@ func inspect(m modeling.Mesh) info {
 	}
 	for _, mm := range m.Materials() {
 		in.matSum += mm.PrimitiveCount
+		if mm.Material == nil {
+			in.nilMat = true
+		}
 	}
 	return in
 }
